@@ -53,6 +53,15 @@ func (c *Conn) ResetSession(ctx context.Context) error {
 	return conn.ResetSession(ctx)
 }
 
+// Ping reaches the database, as it does through the plain driver (driver.Pinger): without it database/sql
+// answers db.Ping itself, with success, on a connection that is dead
+func (c *Conn) Ping(ctx context.Context) error {
+	if pinger, ok := c.targetConn.(driver.Pinger); ok {
+		return pinger.Ping(ctx)
+	}
+	return nil
+}
+
 // Prepare returns a prepared statement, bound to this connection.
 func (c *Conn) Prepare(query string) (driver.Stmt, error) {
 	s, err := c.targetConn.Prepare(query)
